@@ -48,6 +48,10 @@ func (x *Exec) step(fr *Frame, ins ssa.Instruction, st *State) []alt {
 		return one(st, x.val(fr, ins.X))
 	case *ssa.FieldAddr:
 		base := x.val(fr, ins.X)
+		// a field of *base is addressed: base is not nil on every continuing path
+		if !nonNil(base) && base.Op != "param" {
+			st.setFact(tEq(base, tNil), false)
+		}
 		return one(st, mk("field", fieldAux(ins.X.Type().Underlying().(*types.Pointer).Elem(), ins.Field), nil, base))
 	case *ssa.Field:
 		v := x.val(fr, ins.X)
